@@ -22,7 +22,7 @@ LEVEL_TEXT = ('Every ray of every fan computed by the real functions is checked 
               'shuffled query orders.')
 LEVEL_NOTE = 'Coverage is claimed for the compute_rays_fancy fan only (compute_ray / compute_rays get the per-ray checks).'
 SHARDS = {'quick': 4, 'thorough': 16}
-BUDGET_S = {'quick': 60, 'thorough': 900}
+BUDGET_S = {'quick': 300, 'thorough': 2400}
 RULE = ('case = (area, origin) with its whole fan (each ray checked). non-trivial = area with at least 2 cells; distinct by '
         '(area, origin).')
 ASSUMPTIONS = ['border = cells with y in {ymin,ymax} or x in {xmin,xmax}']
